@@ -437,7 +437,14 @@ class Rule_LT09(BaseRule):
                             LintFix.create_after(
                                 select_clause[0],
                                 ([NewlineSegment()] if add_newline else [])
-                                + list(move_after_select_clause),
+                                # NOTE: Meta segments (e.g. the Indent after a
+                                # modifier) have no raw content, can't be part
+                                # of an edit and don't need moving.
+                                + [
+                                    seg
+                                    for seg in move_after_select_clause
+                                    if not seg.is_meta
+                                ],
                             )
                         )
 
